@@ -45,6 +45,10 @@ pub struct FaultCtl {
     pub boundaries: Vec<u64>,
     /// Name and sink for transport-level tracing (replays).
     pub trace: Option<(String, crate::api_app::SharedLog)>,
+    /// Behave like a stream transport with its own write buffer: messages handed to `send_start`
+    /// only leave when `send_poll_flush` is polled to completion.
+    pub flush_required: bool,
+    pub held: std::collections::VecDeque<Message>,
 }
 
 impl FaultCtl {
@@ -62,6 +66,8 @@ impl FaultCtl {
             received: 0,
             boundaries: Vec::new(),
             trace: None,
+            flush_required: false,
+            held: std::collections::VecDeque::new(),
         }
     }
 
@@ -235,6 +241,10 @@ impl AsyncTransport for Faulty {
                 log.borrow_mut().tr(|| format!("    {name} send {}", crate::api_transport::short(&msg)));
             }
         }
+        if this.ctl.borrow().flush_required {
+            this.ctl.borrow_mut().held.push_back(msg);
+            return Ok(());
+        }
         delegate!(this, t => Pin::new(t).send_start(msg))
     }
 
@@ -247,6 +257,26 @@ impl AsyncTransport for Faulty {
             }
             if ctl.buggify(cx) {
                 return Poll::Pending;
+            }
+        }
+        // Write-buffer emulation: hand the held messages over first.
+        loop {
+            if this.ctl.borrow().held.is_empty() {
+                break;
+            }
+            let ready = delegate!(this, t => match Pin::new(t).send_poll_ready(cx) {
+                Poll::Ready(r) => r.map(|()| true),
+                Poll::Pending => Ok(false),
+            });
+            match ready {
+                Ok(true) => {
+                    let msg = this.ctl.borrow_mut().held.pop_front().unwrap();
+                    if let Err(e) = delegate!(this, t => Pin::new(t).send_start(msg)) {
+                        return Poll::Ready(Err(e));
+                    }
+                }
+                Ok(false) => return Poll::Pending,
+                Err(e) => return Poll::Ready(Err(e)),
             }
         }
         let res = delegate!(this, t => match Pin::new(t).send_poll_flush(cx) {
